@@ -328,7 +328,10 @@ pub fn vec_campaign(
 
     // directed histories on every runner
     for (k, (ops, cfg)) in directed.iter().enumerate() {
-        for (_, runner) in rs.iter() {
+        for (ri, (_, runner)) in rs.iter().enumerate() {
+            if crate::common::reduced() && (ri + k) % 4 != 0 {
+                continue;
+            }
             let mut c = cfg.clone();
             c.fixed_ops = Some(ops.clone());
             let mut rng = Rng::derive(ctx.seed, &[tag, 7777, k as u64]);
@@ -615,6 +618,9 @@ pub fn check_c07(ctx: &Ctx) -> i32 {
     }
     let cfg0 = HistCfg { check_pages: true, ..HistCfg::default() };
     let mut triple_stats = Counter::default();
+    if crate::common::reduced() {
+        triple_sets.truncate(1);
+    }
     for (name, runner, pp) in &triple_sets {
         let all = boundary_triples(*pp);
         let n = all.len();
@@ -727,6 +733,9 @@ fn probe_campaign(ctx: &Ctx, report: &Report, tag: u64, sig: &'static str, secs:
     let mut total: Option<VecCampaign> = None;
     let settings: [(usize, f64); 3] = [(0, 0.35), (64, 0.25), (usize::MAX, 0.4)];
     for (k, (crossover, share)) in settings.iter().enumerate() {
+        if crate::common::reduced() && k == 1 {
+            continue;
+        }
         if *crossover == usize::MAX {
             vecdb::verif::reset_knobs();
         } else {
